@@ -156,13 +156,17 @@ def option_specs(draw, max_iter=12, solvers=("direct", "amg", "cg"),
         "tol": draw(st.sampled_from([None, None, 1e-3, 1e-6])),
         "L": draw(st.sampled_from([None, 1.0, 0.1, 10.0])),
         "update_every": draw(st.sampled_from([1, 2, 3])),
+        # adaptive Bregman: the first re-assembly of the weights happens at iteration 0 or only later
+        "update_phase": draw(st.sampled_from([0, 0, 1, 2])),
     }
     return spec
 
 
-def _bregman_update(k):
+def _bregman_update(k, phase=0):
+    """Update schedule of the adaptive Bregman method: every k-th iteration, starting at iteration
+    `phase` (0: also at the very first iteration; k - 1: for the first time after k - 1 iterations)."""
     def f(it):
-        return it % k == 0
+        return it % k == phase % k
 
     return f
 
@@ -194,7 +198,7 @@ def make_options(o):
     if o.get("L") is not None:
         opts["L"] = o["L"]
     if o["method"] == "bregman_adaptive":
-        opts["bregman_update"] = _bregman_update(o.get("update_every", 1))
+        opts["bregman_update"] = _bregman_update(o.get("update_every", 1), o.get("update_phase", 0))
     if o["linear_solver"] in ("amg", "cg") and o.get("lso", "tight") == "tight":
         opts["linear_solver_options"] = {"atol": 1e-12, "rtol": 1e-12, "maxiter": 400}
     if o.get("homogeneous") and o["method"] == "bregman_adaptive":
@@ -205,7 +209,13 @@ def make_options(o):
 def make_solver(grid, o, weight=None, extra=None):
     import darsia
 
-    g = darsia.Grid(shape=tuple(grid["shape"]), voxel_size=list(grid["vox"]))
+    if grid.get("via_image"):
+        # the grid of the images themselves, as the unified entry point builds it
+        shape = grid["shape"]
+        dims = [n * v for n, v in zip(shape, grid["vox"])]
+        g = darsia.generate_grid(darsia.Image(np.zeros(shape), dimensions=dims, space_dim=len(shape), scalar=True))
+    else:
+        g = darsia.Grid(shape=tuple(grid["shape"]), voxel_size=list(grid["vox"]))
     opts = make_options(o)
     if extra:
         opts.update(extra)
